@@ -65,8 +65,10 @@ def run_worker(mode, indexed_cases, per_case_timeout):
             (tmp / "cases.json").write_text(json.dumps(todo))
             out = tmp / "out.jsonl"
             try:
+                env = vlib.impl_env()
+                env["TMPDIR"] = str(tmp)  # scratch dirs of a killed worker disappear with ours
                 p = subprocess.run([vlib.PY, "-B", str(HERE / "c18_rt.py"), mode, str(tmp / "cases.json"), str(out)],
-                                   env=vlib.impl_env(), capture_output=True, text=True,
+                                   env=env, capture_output=True, text=True,
                                    timeout=per_case_timeout * len(todo) + 120, check=False)
                 rc, err = p.returncode, p.stderr[-1500:]
             except subprocess.TimeoutExpired:
